@@ -77,6 +77,12 @@ def run(rec, cfg):
     MP.attach_tokenizer("C11")
     rng = cfg.rng("c11")
     toks = {True: Tokenizer(exclude_padding=True), False: Tokenizer(exclude_padding=False)}
+    try:
+        # the documented signature is Tokenizer(exclude_padding=True): the mode given positionally is the same request
+        toks_pos = {True: Tokenizer(True), False: Tokenizer(False)}
+    except Exception:
+        toks_pos = {}
+        rec.violation("C11", "tok/constructor", "the documented constructor call Tokenizer(<bool>) raises", {"text": "", "summary": "Tokenizer(True) / Tokenizer(False) raised"})
     # one more long-lived instance whose public settings change between calls on the same text:
     # the padding switch is flipped and a function name is registered / removed again
     from mathy_core.expressions import AbsExpression, SgnExpression
@@ -151,6 +157,13 @@ def run(rec, cfg):
                 via_parser(parsers[True], s, False)
         for a, b in zip(s, s[1:]):
             classes.add((MP.char_class(a), MP.char_class(b)))
+        if n_s % 6 == 1:
+            for excl, t in toks_pos.items():
+                try:
+                    t.tokenize(s)
+                except Exception:
+                    pass
+            rec.arm("tok:mode-given-positionally")
         outs = {}
         for excl, t in toks.items():
             try:
